@@ -118,8 +118,9 @@ Definition normalize_fixed (rs : list range) : list range :=
    named normalize_* in Props.v and the functions of Run.v are about
    [normalize_ranges].  The *_refuted theorems are about [normalize] and the
    fixed_* theorems about [normalize_fixed], whatever the switch says. *)
-Definition normalize_ranges : list range -> list range := normalize.
-(* Definition normalize_ranges : list range -> list range := normalize_fixed. *)
+(* since the repair (fix: drop empty ranges before normalising) the code is normalize_fixed;
+   the pre-repair code is [normalize] *)
+Definition normalize_ranges : list range -> list range := normalize_fixed.
 
 (* ------------------------------------------------------------------ *)
 (* :157 FileLines.  File names are opaque identifiers; the HashMap is an
